@@ -368,6 +368,11 @@ def _mpsc_permit_send(m, args, ci):
         return MpscSender(ch)
     return unit()
 
+@I.rx(r'^(tokio::sync::)?mpsc::(bounded::)?Sender::(capacity|max_capacity)$')
+def _mpsc_capacity(m, args, ci):
+    ch = deref_val(args[0]).ch
+    return ch.cap if ci.name.endswith('max_capacity') else max(0, ch.cap - len(ch.q) - ch.reserved)
+
 @I.rx(r'^(tokio::sync::)?mpsc::(bounded::)?Receiver::recv$')
 def _mpsc_recv(m, args, ci):
     return RecvFut(args[0])
